@@ -1,7 +1,57 @@
-import TapkeeVerif.Model.Params
-/-! Property C14 (work in progress: the full theorem list follows). -/
+import TapkeeVerif.Proofs.Params
+/-!
+# Property C14 — invalid requests raise the documented exception before any computation
+
+Statements only (helper lemmas live in `Proofs/Params.lean`).  The model `frontEnd` interprets the tables that
+tools/translate_front.py regenerates from the headers (`Gen.frontSteps`, `Gen.validate`, `Gen.embedBody`,
+`Gen.dispatch`, `Gen.rethrow`, `Gen.defaultsList`, `Kw.default`, `Kw.documented`, `Meth.traits`), so every theorem
+below is re-stated by an edit of the source and re-checked by `lake build`.
+-/
 namespace TapkeeVerif.C14
 open TapkeeVerif.Front TapkeeVerif.Gen TapkeeVerif.Params
+
+/-! ## duplicates, explicit values, defaults (all lists, any order, any multiplicity) -/
+
+/-- a keyword given twice - anywhere in the list, with any multiplicity, with equal or different values, whatever
+    else is wrong with the request - is answered by `tapkee::multiple_parameter_error` before any callback use -/
+theorem duplicates_always_rejected (r : Request) (h : ¬ (r.kws.map Param.kw).Nodup) :
+    frontEnd r = ⟨.threw (errT .multiple_parameter_error), Counts.zero⟩ := by
+  have hc := check_ofList r.kws
+  simp only [h, if_false] at hc
+  simp [frontEnd, frontSteps, runSteps, runStep, initState, hc, M.bind, M.lift, M.throw, M.stop, mapErr, rethrow, errS, errT]
+
+/-- … and a list without a repeated keyword is never answered by `multiple_parameter_error` -/
+theorem no_duplicates_not_rejected (r : Request) (h : (r.kws.map Param.kw).Nodup) :
+    (PSet.ofList r.kws).check = .ok () := by
+  rw [check_ofList]; simp [h]
+
+/-- explicitly set values are never replaced by defaults -/
+theorem explicit_values_kept (r : Request) (h : (r.kws.map Param.kw).Nodup) (p : Param) (hp : p ∈ r.kws) :
+    (merged r).get p.kw = .ok p.val := by
+  simp [PSet.get, lookup_merged, lastVal_of_mem_nodup r.kws h p hp]
+
+/-- the value held by every keyword of `tapkee_internal::defaults` equals the keyword's default value -/
+theorem defaults_hold_default : ∀ k ∈ defaultsList, lookup k defaults.pmap = some k.default := by decide
+
+/-- unset keywords take their defaults -/
+theorem unset_take_defaults (r : Request) (k : Kw) (hk : k ∈ defaultsList) (h : ∀ p ∈ r.kws, p.kw ≠ k) :
+    (merged r).get k = .ok k.default := by
+  simp [PSet.get, lookup_merged, (lastVal_none_iff k r.kws).mpr h, defaults_hold_default k hk]
+
+/-- the "Default value is …" sentence of every keyword's doc comment states the value the keyword really carries,
+    and every keyword except `method` has a default in `tapkee_internal::defaults` -/
+theorem documented_default_eq_actual :
+    (∀ k : Kw, ∀ v, k.documented = some v → v = k.default) ∧ (∀ k : Kw, k ≠ .method → k ∈ defaultsList) := by
+  constructor
+  · intro k; cases k <;> simp [Kw.documented, Kw.default]
+  · intro k; cases k <;> simp [defaultsList]
+
+/-- hence: unset keywords take their *documented* defaults -/
+theorem unset_take_documented_defaults (r : Request) (k : Kw) (v : Val) (hd : k.documented = some v)
+    (h : ∀ p ∈ r.kws, p.kw ≠ k) : (merged r).get k = .ok v := by
+  have hm : k ≠ .method := by intro hk; subst hk; simp [Kw.documented] at hd
+  rw [documented_default_eq_actual.1 k v hd]
+  exact unset_take_defaults r k (documented_default_eq_actual.2 k hm) h
 
 /-- every exception class stichwort defines is caught by `tapkee::embed` and rethrown as its tapkee twin -/
 theorem rethrow_map_total :
